@@ -457,6 +457,32 @@ theorem nonzero_spec : ∀ (l : List Src), nonzero l ≠ .top → (nonzero l).ev
         · rw [if_pos h3, h3]; simp [den]
         · rw [if_neg h3] at h; exact absurd rfl h
 
+
+/-- `+` of two values that are never both non-zero in one position is `|` (no carries) -/
+theorem den_add_disjoint : ∀ (a b : List Src), a.length = b.length → disjointL a b = true →
+    noTop (List.zipWith Src.or a b) = true →
+    den raw fv (List.zipWith Src.or a b) = den raw fv a + den raw fv b := by
+  intro a
+  induction a with
+  | nil => intro b hl _ _; cases b with
+    | nil => simp [den]
+    | cons _ _ => simp at hl
+  | cons s a ih =>
+    intro b hl hd hn
+    cases b with
+    | nil => simp at hl
+    | cons t b =>
+      simp only [List.length_cons, Nat.add_right_cancel_iff] at hl
+      simp only [disjointL, Bool.and_eq_true, Bool.or_eq_true, beq_iff_eq] at hd
+      simp only [List.zipWith_cons_cons, noTop, List.all_cons, Bool.and_eq_true, bne_iff_ne, ne_eq] at hn
+      have ih' := ih b hl hd.2 (by simpa [noTop] using hn.2)
+      simp only [List.zipWith_cons_cons, den, ih']
+      have hor := Src.eval_or raw fv s t hn.1
+      rw [hor]
+      rcases hd.1 with h | h
+      · subst h; simp; omega
+      · subst h; simp; omega
+
 end
 
 end Bb.Nf
